@@ -58,4 +58,31 @@ where
       | none => false
       | some rest => matchNFA delim pattern rest
 
+/-! ### delimiters of any length (the delimiter is a rune; on the wire it is 1-4 bytes) -/
+
+/-- no occurrence of the delimiter string starts inside `pre` when `pre` is followed by `ns` -/
+def noStart (delim : List B) : List B → List B → Bool
+  | [], _ => true
+  | p :: pre, ns => !(hasPrefix delim (p :: pre ++ ns)) && noStart delim pre ns
+
+/-- byte-level wildcard semantics for a delimiter string: '%' stands for a sequence inside which
+    no delimiter starts.  For a one-byte delimiter this is "a sequence not containing it"
+    (`matchesS_single`); for a multi-byte delimiter and valid UTF-8 it is the rune-level "a
+    sequence of characters other than the delimiter", UTF-8 being self-synchronising — that last
+    step is not proved: `runeOracle` below evaluates the rune-level semantics on every run. -/
+inductive MatchesS (delim : List B) : List B → List B → Prop
+  | nil : MatchesS delim [] []
+  | lit (c ps ns) : isWild c = false → MatchesS delim ps ns → MatchesS delim (c :: ps) (c :: ns)
+  | star (ps pre ns name) : name = pre ++ ns → MatchesS delim ps ns → MatchesS delim (42 :: ps) name
+  | pct (ps pre ns name) : name = pre ++ ns → (delim ≠ [] → noStart delim pre ns = true) →
+      MatchesS delim ps ns → MatchesS delim (37 :: ps) name
+
+/-- rune-level oracle: the documented resolution applied to the CHARACTERS of valid UTF-8 arguments
+    (`resolveMatch` works over any alphabet of naturals: here code points, the delimiter rune being
+    one symbol); `none` when an argument is not valid UTF-8 -/
+def runeOracle (dec : List B → Option (List Nat)) (name : List B) (delimRune : Nat) (reference pattern : List B) : Option Bool :=
+  match dec name, dec reference, dec pattern with
+  | some n, some r, some p => some (resolveMatch n (if delimRune = 0 then none else some delimRune) r p)
+  | _, _, _ => none
+
 end GoImap.ListMatchSpec
